@@ -38,7 +38,8 @@ Inductive beh :=
 | BRet                                   (* returns a token (not iterable) *)
 | BRaise (e : string)                    (* raises *)
 | BGen (k : nat) (fin : option string)   (* generator function: yields k tokens, then stops / raises *)
-| BTuple (k : nat).                      (* returns a tuple of k tokens *)
+| BTuple (k : nat)                       (* returns a tuple of k tokens *)
+| BGenLen.                               (* parametrised generator: one token per positional argument *)
 
 Fixpoint nlookup {A} (k : N) (l : list (N * A)) : option A :=
   match l with
@@ -53,8 +54,9 @@ Definition c_call (behs : list (N * beh)) (f : N) (args : list cval) (kwargs : l
   | None => CRaise "model:unknown-callable"
   | Some BRet => CRet (PObj (ORet f)) NotIter
   | Some (BRaise e) => CRaise e
-  | Some (BGen k fin) => CRet (PObj (ORet f)) (Iter (yields_of f k) fin)
-  | Some (BTuple k) => CRet (PObj (ORet f)) (Iter (yields_of f k) None)
+  | Some (BGen k fin) => CRet (PObj (ORet f)) (Iter true (yields_of f k) fin)
+  | Some (BTuple k) => CRet (PObj (ORet f)) (Iter false (yields_of f k) None)
+  | Some BGenLen => CRet (PObj (ORet f)) (Iter true (yields_of f (List.length args)) None)
   end.
 
 (* ------------------------------------------------------------------ equalities *)
